@@ -1208,7 +1208,10 @@ def store(
                 lock=lock,
                 return_stored=return_stored,
                 load_stored=load_stored,
-                token="store-map",
+                # Storing is a side effect on the target: distinct target
+                # objects need distinct tasks even if their contents (and
+                # therefore their tokens) are currently equal
+                name="store-map-" + tokenize(s, id(t), r, return_stored, load_stored),
                 meta=s._meta,
             )
         )
